@@ -41,6 +41,10 @@ struct Check {
 	// after step `after` has been fully processed (-1: before the first step)
 	virtual void quiescent(RunCtx &, int after) { (void) after; }
 	virtual void finish(RunCtx &) {}
+	// twin executions: when this returns true, `out` is run first (phase 1), then p itself (phase 2);
+	// the check compares what it recorded in phase 1 with phase 2
+	virtual bool twin(const Plan &p, Plan &out) { (void) p; (void) out; return false; }
+	virtual void set_phase(int phase) { (void) phase; }
 	// extra candidates for minimisation (smaller variants of p)
 	virtual void shrink_more(const Plan &p, std::vector<Plan> &out) { (void) p; (void) out; }
 	virtual std::string rule() const = 0;
